@@ -43,6 +43,18 @@ CHECKS = {
         "design_ref": "DESIGN.md §4 C02",
         "note": "Data domain is None/bool/int/float/str/list/dict/range as the property states; custom drops and bytes are not generated.",
     },
+    "C03": {
+        "technique": "differential + invariant testing across tolerance modes on valid, mutated and token-soup sources",
+        "text": "Each generated source the lexer accepts is parsed and rendered in STRICT, LAX and WARN. LAX must never raise; WARN must match LAX's output, and the number of errors it suppressed (counted at Environment.error) must equal the number of LiquidWarnings captured; a strict-mode render error must produce a warning in WARN mode; a strict-clean template must render identically in all three modes with no warnings.",
+        "design_ref": "DESIGN.md §4 C03",
+        "note": "Does not assert 'STRICT parse fails => WARN warns' (parsers are deliberately lenient outside strict mode). Non-Liquid crashes are C02's scope.",
+    },
+    "C04": {
+        "technique": "round-trip property testing: parse -> str -> parse -> str, plus differential render of original vs re-parsed template",
+        "text": "Random templates over every standard tag with not/parentheses/ternary enabled and hostile literals (quotes, backslashes, newlines, bracketed roots, nested paths, ranges): str(T) must parse, be a fixed point of parse->str, and the re-parsed template must render like the original on 3 data sets. Failures are localised to the smallest single node reproducing them.",
+        "design_ref": "DESIGN.md §4 C04",
+        "note": "The nil literal is excluded by construction (known finding C04-nil-prints-empty, pinned by the repo's own tests). Textual equality with the original source is not asserted.",
+    },
     "C24": {
         "technique": "model-based testing: exhaustive op histories + owned schedules vs list-LRU reference model; thread stress",
         "text": "Every op history up to length 4 (quick) / 5 (thorough) over 20 ops, capacities 1-4, both cache classes, is compared step by step with an independent list model, so within that bound the sequential clause is decided completely; longer random histories sample beyond it. 'While being listed' is decided deterministically by owned schedules (listing begun, other ops interleaved, listing drained); real threads add a one-sided stress.",
